@@ -292,6 +292,92 @@ func (w *c08World) raceSweep(secret, tr, family int) bool {
 	return w.check("after-sweep")
 }
 
+// raceSweepRegister runs a sweep and a (re-)registration of one client as two tasks. If the client's
+// earlier registration is expired the order decides: registered first, it is a repeat of a
+// registration the sweep then removes; registered after the removal, it is a new registration with
+// a new lifetime. Either way both maps agree afterwards.
+func (w *c08World) raceSweepRegister(secret, tr, family int) bool {
+	now := time.Now()
+	k := c08Key{c08Phantom(secret, family).String(), tr, secret}
+	e := w.model[k]
+	w.races++
+	s := w.s
+	s.Spawn(fmt.Sprintf("sweeper%d", w.races), func() { w.rm.RemoveOldRegistrations() })
+	var regErr error
+	s.Spawn(fmt.Sprintf("registrar%d", w.races), func() {
+		reg := w.mkReg(secret, tr, family)
+		if regErr = w.rm.TrackRegistration(reg); regErr == nil {
+			w.rm.AddRegistration(reg)
+		}
+	})
+	st := sim.Drive(w.r, s, sim.DriveOpt{Horizon: 1000000 * time.Hour, MaxSteps: 5000})
+	if st == sim.Failed {
+		return false
+	}
+	if st == sim.Deadlock {
+		w.r.Fail("C08/deadlock", "sweep and registration block each other: %s", s.WaitForGraph())
+		return false
+	}
+	if st != sim.AllExited {
+		w.r.Fail("harness/c08-race", "race step did not finish: %v %v", st, s.LiveNames())
+		return false
+	}
+	if regErr != nil {
+		w.r.Fail("C08/track-error", "TrackRegistration: %v", regErr)
+		return false
+	}
+	w.r.Probe("sweep_raced_by_registration")
+	w.r.CoverU(s.SigHash)
+	tracked := w.implHas(k)
+	w.r.Logf("sweep raced by register secret=%d %s v%d -> tracked afterwards=%v", secret, c08TName[tr], family, tracked)
+	removed := 0
+	for mk, me := range w.model {
+		if mk == k {
+			continue
+		}
+		if w.borderline(me, now) {
+			if !w.implHas(mk) {
+				delete(w.model, mk)
+			}
+			continue
+		}
+		if w.expired(me, now) {
+			delete(w.model, mk)
+			removed++
+		}
+	}
+	switch {
+	case e == nil:
+		// a new registration: tracked from now on
+		w.model[k] = &c08Entry{at: now, valid: true}
+		w.made = append(w.made, now)
+	case w.borderline(e, now):
+		if tracked {
+			// follow the implementation: kept as it was or re-made; its age is a don't-care from here on
+			w.model[k] = &c08Entry{at: now, valid: true}
+			w.made = append(w.made, now)
+		} else {
+			delete(w.model, k)
+		}
+	case w.expired(e, now):
+		w.r.Probe("registration_raced_expiry")
+		w.r.Nontrivial()
+		if tracked {
+			w.model[k] = &c08Entry{at: now, valid: true} // removed, then registered anew
+			w.made = append(w.made, now)
+		} else {
+			delete(w.model, k) // a repeat of the old registration, removed by the sweep
+			removed++
+		}
+	default:
+		e.valid = true // a repeat of a live registration changes nothing
+	}
+	if removed > 0 {
+		w.r.Nontrivial()
+	}
+	return w.check("after-sweep")
+}
+
 func (w *c08World) implHas(k c08Key) bool {
 	for _, d := range w.rm.registeredDecoys.decoys[k.phantom] {
 		if d.Transport == c08Transports[k.tr] && bytes.Equal(d.Keys.SharedSecret, c08Secret(k.secret)) {
@@ -448,11 +534,13 @@ func (w *c08World) smallOp(op int) bool {
 		return w.sweep()
 	case 10:
 		return w.raceSweep(0, 0, 4)
+	case 11:
+		return w.raceSweepRegister(0, 0, 4)
 	}
 	return w.check("step")
 }
 
-const c08SmallOps = 11
+const c08SmallOps = 12
 
 func TestVerifC08(t *testing.T) {
 	sim.Main(t, sim.Config{
@@ -460,7 +548,7 @@ func TestVerifC08(t *testing.T) {
 		Scenario: c08Scenario,
 		ExhaustRoots: func(tier string) [][]int {
 			// root = [mode=1, length, first op] so that the enumeration spreads over the shards
-			maxLen := 4
+			maxLen := 3
 			if tier == "thorough" {
 				maxLen = 6
 			}
@@ -473,11 +561,11 @@ func TestVerifC08(t *testing.T) {
 			return roots
 		},
 		ExhaustMax: map[string]int{"quick": 200000, "thorough": 2000000},
-		Runs:       map[string]int{"quick": 8000, "thorough": 400000},
+		Runs:       map[string]int{"quick": 30000, "thorough": 400000},
 		NoCrypto:   true,
 		Real:       []string{"RegistrationManager.TrackRegistration / AddRegistration / GetRegistrations / MarkActive / RemoveOldRegistrations", "RegisteredDecoys (both maps, expiry rule)", "min / prefix / obfs4 GetIdentifier, core.GenSharedKeys"},
 		Stub:       []string{"wall clock (synctest bubble)", "detector announcements (recording functions)", "goroutine scheduling and the registry mutex during the raced sweep (simulator)"},
-		Rule: "systematic: every history of length 1..4 (thorough: 1..6, bounded per root) over an 11-operation alphabet {register+validate (s0,min,v4) / (s0,prefix,v4) / (s1,min,v4), register (s0,min,v6), connect x2, advance 9m59s / 5h59m / 3m, sweep, sweep raced by a connection handler (two tasks, interleavings at the registry's lock operations chosen by the tape; systematic part: at most 2 preemptions per history)}; random: histories up to length 200 over 3 secrets x 3 transports x 2 families with duplicates, unvalidated registrations and 7 time steps. " +
+		Rule: "systematic: every history of length 1..3 (thorough: 1..6, bounded per root) over a 12-operation alphabet {register+validate (s0,min,v4) / (s0,prefix,v4) / (s1,min,v4), register (s0,min,v6), connect x2, advance 9m59s / 5h59m / 3m, sweep, sweep raced by a connection handler, sweep raced by a re-registration (two tasks each, interleavings at the registry's lock operations chosen by the tape; systematic part: at most 2 preemptions per history)}; random: histories up to length 200 over 3 secrets x 3 transports x 2 families with duplicates, unvalidated registrations and 7 time steps. " +
 			"The implementation's tracked set is compared with the reference model after every operation (exactly after a sweep). non-trivial = a sweep removed at least one model entry; distinct = distinct histories (hash of the operation sequence)",
 		Assume: []string{"ages are kept at least 1 ms away from the 10 min / 6 h thresholds, so > versus >= is never decisive"},
 	})
@@ -508,9 +596,15 @@ func c08Scenario(r *sim.Run) {
 	}
 	n := 1 + tp.Choose("len", 200)
 	for i := 0; i < n; i++ {
-		k := tp.Choose("kind", 11)
+		k := tp.Choose("kind", 12)
 		r.CoverU(uint64(k))
 		switch {
+		case k == 11:
+			sc, tr, f := tp.Choose("secret", 3), tp.Choose("transport", 3), 4+2*tp.Choose("family", 2)
+			if !w.raceSweepRegister(sc, tr, f) {
+				return
+			}
+			continue
 		case k == 10:
 			sc, tr, f := tp.Choose("secret", 3), tp.Choose("transport", 3), 4+2*tp.Choose("family", 2)
 			if !w.raceSweep(sc, tr, f) {
